@@ -49,6 +49,16 @@ func c09Strata() []stratum {
 			c.PLongSrc, c.PRepeat, c.PWorld, c.PUnbounded, c.PBig, c.PAbsent, c.PNegBal = 85, 10, 3, 3, 0, 5, 0
 			c.PFunded, c.PSendAll, c.PSave, c.PMetaStmt, c.Fanout = 85, 6, 6, 3, 40
 		}), 2},
+		{"ladder", with(func(c *gen.LCfg) {
+			// two or three statements whose sources have 15 .. 1025 entries (sizes next to powers of two)
+			noOrigin(c)
+			c.Accounts = manyAccounts(1100)
+			c.Assets = []string{"USD"}
+			c.Ladder = true
+			c.MinStmts, c.MaxStmts, c.Depth, c.Fanout = 2, 3, 1, 1030
+			c.PLongSrc, c.PLongDst, c.PRepeat, c.PWorld, c.PUnbounded, c.PBig, c.PAbsent, c.PNegBal = 90, 10, 2, 2, 2, 0, 2, 0
+			c.PFunded, c.PSendAll, c.PSave, c.PMetaStmt, c.PVarAcct = 97, 10, 4, 0, 1
+		}), 1},
 		{"meta", with(func(c *gen.LCfg) {
 			noOrigin(c)
 			c.Accounts = []string{"a", "b"}
